@@ -514,6 +514,8 @@ def run_unit(unit, ctx):
         if "of" in unit and i % unit["of"] != unit["part"]:
             continue
         fails = CHECKS[kind](data, ctx)
+        if unit["kind"] == "tokens":
+            ctx.count("sweep_cases")
         ctx.count("evaluations")
         ctx.count("cases_" + kind)
         case = {"kind": kind, "data": [list(x) for x in data]}
